@@ -85,6 +85,11 @@ def make_cases(tier, seed):
                 c['ops'].append({'op': 'wb'})
             else:
                 c['ops'].append({'op': 'wb'})
+            if i % 4 == 3 and k == 1:
+                # hints edited in place through get_active_block_parameters_ref(), taken into use by a rotation
+                qrh, sigh, rrh, oth = masks(tier, r, 10 ** 6)
+                c['ops'] += [{'op': 'wb'}, {'op': 'edithints', 'qrh': qrh, 'sigh': sigh, 'rrh': rrh, 'oth': oth},
+                             {'op': 'rotate', 'id': 'o1', 'export': True}]
         cases.append(c)
     return cases
 
@@ -94,7 +99,7 @@ def disabled_values(case):
     m = model.ExporterModel(case['preamble'])
     out = []
     for i, op in enumerate(case['ops']):
-        bp = m.bps[m.block.bpi]
+        bp = m.block.bp
         qrh, sigh, rrh, oth = bp['qrh'], bp['sigh'], bp['rrh'], bp['oth']
         if op['op'] == 'qr':
             q = op['r']
@@ -133,7 +138,7 @@ def run(tier, seed):
             if pc is None:
                 continue
             c = pc['case']
-            vs += pipeline.judge_hints(PROP, c, pc['outs'], pc['docs'])
+            vs += pipeline.judge_hints(PROP, c, pc['outs'], pc['docs'], pc['exp_out'])
             blob = b''.join(o.data for o in pc['outs'] if o.data)
             for path, hx, bit in disabled_values(c):
                 canaries += 1
